@@ -1,7 +1,7 @@
 /-
 Driver requests of property C07 (whole runs and phase tables).
 
-  clirun <argv> <interp table> <floatStr table> <base header> <dot> <fuel> <rng₀> <σ>
+  clirun <tool> <argv> <interp table> <floatStr table> <base header> <dot> <fuel> <rng₀> <σ>
       argv          : list of strings (code-point lists)
       interp table  : list of  <tok> <hasInt> <int> <hasFlt> <pn> <pd>      (`int(tok)`, `float(tok)` as a fraction)
       floatStr table: list of  <tok> <str(float(tok))>
@@ -72,11 +72,12 @@ def fmtGuard : Guard → String
 def handle (opname : String) (a : Args) : Option String :=
   match opname with
   | "clirun" => run (do
+      let tool ← str
       let argv ← listOf str
       let w ← world
       let r0 ← rng
       let rs ← rng
-      pure (fmtOutcome (cliRun (fun _ => rs) w argv r0))) a
+      pure (fmtOutcome (toolRun tool (fun _ => rs) w argv r0))) a
   | "phasetrace" => run (do
       let tool ← str; let has ← bool; let s ← int
       let p ← nat; let b ← nat; let t ← nat; let sh ← nat
